@@ -32,6 +32,7 @@ def hostile_frames():
         add("cmd=%d" % i, [t, "x"])
         add("EVENT,%d" % i, ["EVENT", t])
         add("REQ,%d" % i, ["REQ", t])
+        add("REQ,%d,ok" % i, ["REQ", t, {"kinds": [1]}])  # a valid REQ whose subscription id is the hostile value
         add("REQ,sid,%d" % i, ["REQ", "s", t])
         add("REQ,sid,ok,%d" % i, ["REQ", "s", {"kinds": [1]}, t])
         add("CLOSE,%d" % i, ["CLOSE", t])
